@@ -270,26 +270,22 @@ def decode_body(short, vals, meta):
 
 
 def decode_etag(short, vals, meta):
-    """etag_match_sym: buf:[u8;9] n:usize e:[u8;6] ne:usize has_etag:bool -> two requests"""
-    if short != "etag_match_sym":
+    """etag_match_{im,inm}[_noetag]: buf:[u8;8] n:usize e:[u8;5] ne:usize"""
+    if not short.startswith("etag_match_"):
         return None
     r = Reader(vals)
-    buf = read_array(r, 9)
+    buf = read_array(r, 8)
     n = r.usize()
-    e = read_array(r, 6)
+    e = read_array(r, 5)
     ne = r.usize()
-    has = r.boolean()
-    if n > 9 or ne > 6:
+    if n > 8 or ne > 5:
         return None
-    hv = buf[:n]
-    etag = e[:ne] if has else None
-    out = []
-    for name in ("if-match", "if-none-match"):
-        out.append({
-            "kind": "serve", "method": "GET", "headers": [[name, hv]],
-            "entity": {"len": 10, "etag": etag, "mtime": None, "headers": []}, "polls": 6,
-        })
-    return out
+    has = not short.endswith("_noetag")
+    name = "if-match" if "_im" in short else "if-none-match"
+    return {
+        "kind": "serve", "method": "GET", "headers": [[name, buf[:n]]],
+        "entity": {"len": 10, "etag": e[:ne] if has else None, "mtime": None, "headers": []}, "polls": 6,
+    }
 
 
 def weight_text(w, ok):
@@ -347,12 +343,10 @@ def decode_gzip(short, vals, meta):
         if set_level:
             sc["gzip_level"] = level
         return sc
-    if short == "sb_dead_after_abort":
-        gz = r.boolean()
-        n = r.usize()
-        data = [1, 2, 3][:n]
-        return {"kind": "streaming", "method": "GET", "accept_encoding": "gzip" if gz else None, "chunk_size": 2,
-                "ops": [{"op": "write", "data": data}, {"op": "abort"}, {"op": "write", "data": data}, {"op": "flush"}]}
+    if short.startswith("sb_dead_after_abort"):
+        gz = short.endswith("_gz")
+        return {"kind": "streaming", "method": "GET", "accept_encoding": "gzip" if gz else None, "chunk_size": 4,
+                "ops": [{"op": "write", "data": [1]}, {"op": "abort"}, {"op": "write", "data": [1]}, {"op": "flush"}]}
     return None
 
 
